@@ -22,6 +22,7 @@ int cl_open(enum cl_kind kind, enum sim_role role, enum sim_origin origin)
 	int cid = sim_connect(role, origin);
 	struct client *c = &clients[cid];
 	memset(c, 0, sizeof(*c));
+	c->used = true;
 	c->cid = cid;
 	c->kind = kind;
 	c->close_code = -1;
@@ -276,11 +277,8 @@ void cl_pump(void)
 {
 	for (int cid = 0; cid < SIM_MAXCONN; cid++) {
 		struct client *c = &clients[cid];
-		if (c->cid != cid || !sim_conn_accepted(cid)) {
-			/* slot unused or connection never accepted: nothing can have been written */
-			if (c->cid != cid) {
-				continue;
-			}
+		if (!c->used) {
+			continue;
 		}
 		const struct bytebuf *out = sim_conn_output(cid);
 		if (out->len == c->consumed) {
